@@ -691,3 +691,27 @@ Proof.
   { destruct Hd as [[_ HN]|[_ [_ HP]]]; [apply HN; lia|rewrite Hs; exact HP]. }
   exact (find_solution_complete_strict a (ru + rd) HR HN ru rd ga eq_refl HT).
 Qed.
+
+(* the search-level statements behind the two minimality theorems *)
+Lemma eta_linear_smallest_feasible_lem fd fb a o : eta fd fb a = OK o -> (o_dur o <= lin_max a)%Z ->
+  find_solution a (o_dur o) <> None /\ (min_duration a <= o_dur o)%Z /\
+  forall d', (min_duration a <= d' < o_dur o)%Z -> find_solution a d' = None.
+Proof.
+  intros H Hle. pose proof (eta_shape _ _ _ _ H) as S. cbv zeta in S. destruct S as [_ [Hf _]].
+  apply eta_search_facts in H. destruct H as [_ [[[_ HN]|[Hgt _]] Hm]]; [|lia].
+  repeat split; [congruence|exact Hm|exact HN].
+Qed.
+
+Lemma eta_binary_smallest_feasible_lem fd fb a o : eta fd fb a = OK o ->
+  Monotone_feasible_from a (lin_max a) ->
+  find_solution a (o_dur o) <> None /\
+  forall d', (min_duration a <= d' < o_dur o)%Z -> find_solution a d' = None.
+Proof.
+  intros H Mono. pose proof (eta_shape _ _ _ _ H) as S. cbv zeta in S. destruct S as [_ [Hf _]].
+  apply eta_search_facts in H. destruct H as [_ [[[_ HN]|[Hgt [HL HP]]] _]].
+  - split; [congruence|exact HN].
+  - split; [congruence|]. intros d' Hd'.
+    destruct (Z_le_gt_dec d' (lin_max a)) as [Hl|Hg]; [apply HL; lia|].
+    destruct (find_solution a d') eqn:E; [|reflexivity]. exfalso.
+    apply (Mono d' (o_dur o - 1)%Z); [lia|congruence|exact HP].
+Qed.
